@@ -73,6 +73,8 @@ pub struct AdScript {
     pub loc_table: HashMap<String, HashMap<String, String>>, // real FixedLocalizationAdapter tables
     pub loc_default: String,
     pub loc_fail: bool,
+    /// how long localize() suspends (ms); 0 = it does not suspend
+    pub loc_lat: u64,
 }
 
 #[derive(Default)]
@@ -178,6 +180,7 @@ impl LocalizationAdapter for Scripted {
     async fn localize(&self, locale: Option<&str>, key: &str, params: &[(&'static str, String)]) -> passage_adapters::Result<String> {
         let cterm = format!("(CLocalize {} {})", g_opt(locale.map(g_str)), g_str(key));
         self.call(cterm);
+        if self.sc.loc_lat > 0 { tokio::time::sleep(Duration::from_millis(self.sc.loc_lat)).await; }
         let r = if self.sc.loc_fail { Err(adapter_err()) } else { self.real_loc.localize(locale, key, params).await };
         let term = match &r { Ok(s) => format!("(RText {})", g_str(s)), Err(_) => "RErr".into() };
         self.log.lock().unwrap().loc.push((format!("({}, {})", g_opt(locale.map(g_str)), g_str(key)), term));
@@ -229,6 +232,8 @@ pub struct Scenario {
     pub max_read_chunk: usize,
     pub write_script: Vec<WriteResp>,
     pub tear_at: Option<u64>,
+    /// M3 transport: instants (ms) at which the free room of the transport is set (None = unlimited); empty = off
+    pub wsched: Vec<(u64, Option<usize>)>,
     /// the client does not wait for Login Success: its Encryption Response and the (already encrypted) frames that
     /// follow are made readable at the same instant, without the server running in between
     pub glue: bool,
@@ -350,7 +355,14 @@ pub fn run_scenario(sc: &Scenario, rng: &mut Rng) -> RunRecord {
     rt.block_on(async move {
         let mut rng = Rng(seed);
         let pipe = Pipe::new();
-        { let mut s = pipe.st.lock().unwrap(); s.max_read_chunk = sc.max_read_chunk; s.write_script = sc.write_script.iter().cloned().collect(); s.tear_at = sc.tear_at; }
+        { let mut s = pipe.st.lock().unwrap(); s.max_read_chunk = sc.max_read_chunk; s.write_script = sc.write_script.iter().cloned().collect(); s.tear_at = sc.tear_at;
+          if !sc.wsched.is_empty() { s.wsched_on = true; s.wsched = sc.wsched.iter().cloned().collect(); } }
+        // the writer is woken at every instant of the schedule
+        for (te, _) in sc.wsched.iter() {
+            let (p2, te) = (pipe.clone(), *te);
+            tokio::spawn(async move { tokio::time::sleep(Duration::from_millis(te)).await; p2.wake_writer(); });
+        }
+        let sched_mode = !sc.wsched.is_empty();
         let log = Arc::new(Mutex::new(CallLog::default()));
         let real_loc = Arc::new(passage_adapters::FixedLocalizationAdapter::new(sc.ads.loc_default.clone(), sc.ads.loc_table.clone()));
         let ad = Arc::new(Scripted { sc: Arc::new(sc.ads.clone()), log: log.clone(), pipe: pipe.clone(), real_loc });
@@ -471,7 +483,7 @@ pub fn run_scenario(sc: &Scenario, rng: &mut Rng) -> RunRecord {
                     }
                     // a write the transport refused for now: let it through a little later
                     let parked = pipe.st.lock().unwrap().wr_waker.is_some();
-                    if parked {
+                    if parked && !sched_mode {
                         tokio::time::sleep(Duration::from_millis(2)).await;
                         pipe.wake_writer();
                         continue;
